@@ -35,7 +35,7 @@ pub fn load_builtins(vm: &mut Vm) {
 }
 
 pub fn string_append(vm: &mut Vm) -> Result<VCell, Error> {
-    let argc = pop_argc(vm, 1, None, "string-append")?;
+    let argc = pop_argc(vm, 0, None, "string-append")?;
     let mut output = String::new();
     for _ in 0..argc {
         let s = pop_string(vm, "string-append")?;
@@ -304,7 +304,7 @@ pub fn make_string(vm: &mut Vm) -> Result<VCell, Error> {
 }
 
 pub fn string(vm: &mut Vm) -> Result<VCell, Error> {
-    let argc = pop_argc(vm, 1, None, "string")?;
+    let argc = pop_argc(vm, 0, None, "string")?;
     let mut v = vec!['\0'; argc];
     for it in 0..argc {
         *v.get_mut(argc - it - 1).unwrap() = pop_char(vm)?;
